@@ -373,10 +373,11 @@ def run_harnesses(bins, cases):
 
     def work(j):
         tag, ci = j
-        r = core.run_grouped(bins[tag], [("g", chunks[ci])], timeout=600)
+        # a chunk normally takes well under a second; a hang (e.g. a loop that no longer advances) costs one timeout per restart
+        r = core.run_grouped(bins[tag], [("g", chunks[ci])], timeout=30, max_restarts=2)
         return tag, ci, r[0][1]
     out = {tag: [None] * len(chunks) for (tag, _) in VARIANTS}
-    for tag, ci, ans in core.parallel_map(work, jobs, workers=8):
+    for tag, ci, ans in core.parallel_map(work, jobs, workers=16):
         out[tag][ci] = ans
     return {tag: [a for ch in out[tag] for a in ch] for tag in out}
 
@@ -422,7 +423,7 @@ def evaluate(ctx, res, bins, orc, cases, record=True):
         for (tag, _) in VARIANTS:
             p = parse_h(hs[tag][ci])
             if p is None:
-                viol.append((ci, "crash-or-exception", "variant %s answered %r" % (tag, hs[tag][ci]), tag, "ORD ...|RES ...", hs[tag][ci]))
+                viol.append((ci, "crash-or-exception", "variant %s crashed, hung (30 s timeout) or threw: answer %r" % (tag, hs[tag][ci]), tag, "ORD ...|RES ...", hs[tag][ci]))
                 continue
             groups.setdefault(p, []).append(tag)
         # the order seen from inside (tagged builds) must be the order of the replicated sort (double builds)
@@ -569,7 +570,7 @@ def check(ctx, replay=None):
         lst.sort(key=lambda x: len(cases[x[0]][1]))
         ci, what, vtag, exp, obs = lst[0]
         small = cases[ci]
-        if not replay and kind not in ("oracle-failure",):
+        if not replay and kind not in ("oracle-failure", "crash-or-exception"):
             small = shrink(ctx, bins, orc, cases[ci], kind)
             if small[1] != cases[ci][1]:
                 v2 = [x for x in evaluate(ctx, core.Result(), bins, orc, [small], record=False) if x[1] == kind]
